@@ -35,18 +35,21 @@ def P(pid, targets, bounded, text, note=None, level="proof", unverified=()):
                      unverified=list(unverified))
 
 
-P("C01", [f"{UT}:rlencode", f"{CR}:index_pixels", f"{TOP}:get"], "bounded/C01.py",
-  "Proof core shared with C02 (index construction for every pixel column and chunking); create/write/read "
-  "round trip through real HDF5 files is covered by the bounded tier (all small matrices x input forms x dtypes "
-  "x metadata documents).",
-  unverified=["create/create_cooler/write_pixels (HDF5 I/O)", "ArrayLoader.__iter__", "api.matrix/pixels read path"],
+P("C01", [f"{UT}:rlencode", f"{CR}:index_pixels", f"{CR}:create", f"{TOP}:get"], "bounded/C01.py",
+  "Proof core shared with C02 (index construction for every pixel column and chunking). create() itself is verified as a coordinator over a ghost operation log (every helper and h5py call replaced by a recording stub; 41 configurations of mode/append/root-or-nested target/check flags/input forms/single-cell append, symbolic paths, counts and symmetric flag): the caller's "
+  "pixels are what is validated and streamed, once, into <group>/pixels; the callers' bins are what is written; columns "
+  "are the ids followed by the requested value columns with the caller's dtypes overriding the defaults; assembly and "
+  "metadata reach the info record verbatim. The write/read round trip through real HDF5 files is covered by the "
+  "bounded tier (all small matrices x input forms x dtypes x metadata documents).",
+  unverified=["write_pixels / write_bins / write_chroms / write_info bodies (HDF5 I/O; stubs in the create contract)",
+              "create_cooler / ArrayLoader.__iter__", "api.pixels read path"],
   level="other")
 
-P("C02", [f"{UT}:rlencode", f"{CR}:index_pixels", f"{CR}:index_bins"], "bounded/C02.py",
+P("C02", [f"{UT}:rlencode", f"{CR}:index_pixels", f"{CR}:index_bins", f"{CR}:create"], "bounded/C02.py",
   "Proof: the chunked run-length encoder behind both offset indexes is verified for every input array and EVERY "
   "chunk size (the carry of the last value across each block boundary is a loop invariant; constancy of runs by an "
-  "induction lemma); index_pixels / index_bins are proved to build exactly the lower-bound (run-length) index of the sorted key column on top of rlencode's contract. Producer outputs are re-derived with raw h5py by the bounded tier.",
-  unverified=["write_info attributes", "producer stream order (merge/coarsen)", "write_pixels/prepare_pixels (HDF5 I/O)"])
+  "induction lemma); index_pixels / index_bins are proved to build exactly the lower-bound (run-length) index of the sorted key column on top of rlencode's contract. create() itself is verified as a coordinator over a ghost operation log (every helper and h5py call replaced by a recording stub; 41 configurations of mode/append/root-or-nested target/check flags/input forms/single-cell append, symbolic paths, counts and symmetric flag): index_bins and index_pixels are called once, after the pixels are written, on the bin table and pixel table just written under the target group with the bin count and the nnz that write_pixels returned; both results are stored under <group>/indexes; the info record is written last and carries exactly nbins = len(bins), nchroms, the written nnz and sum, the inferred bin size and the storage mode. Producer outputs are re-derived with raw h5py by the bounded tier.",
+  unverified=["write_info (adds format/version/date attributes)", "producer stream order (merge/coarsen)", "write_pixels/prepare_pixels bodies (HDF5 I/O)"])
 
 P("C03", [f"{RQ}:_comes_before", f"{RQ}:_contains", f"{RQ}:arg_prune_partition",
           f"{RQ}:CSRReader.get_spans", f"{RQ}:CSRReader.__call__",
@@ -58,8 +61,8 @@ P("C03", [f"{RQ}:_comes_before", f"{RQ}:_contains", f"{RQ}:arg_prune_partition",
   "FillLowerRangeQuery2D, CSRReader row loop with column mask and reflection, span pruning, slice normalisation) is "
   "discharged for all windows, all n, all chunk sizes; the exactly-once lemma C03-L1 is a postcondition of the real "
   "constructors over the contracts of get_spans and CSRReader.__call__.",
-  unverified=[
-              "BaseRangeQuery2D.get/to_array/to_sparse_matrix/to_frame", "RangeSelector2D.__getitem__/fetch"])
+  unverified=["BaseRangeQuery2D.get/to_array/to_sparse_matrix/to_frame (concatenation of the per-box reads; scipy/pandas constructors)",
+              "the _slice/_fetch closures built by Cooler.matrix (their single calls are covered by the Cooler.matrix contract)"])
 
 P("C04", [f"{RQ}:_region_to_extent", f"{RQ}:region_to_extent", f"{RQ}:region_to_offset", "cooler.api:Cooler.extent",
            "cooler.api:Cooler.offset", f"{SEL}:RangeSelector1D.fetch", f"{SEL}:RangeSelector2D.fetch",
@@ -82,19 +85,19 @@ P("C05", [f"{ING}:_sanitize_pixels", f"{UT}:get_binsize"], "bounded/C05.py",
 
 P("C06", [f"{RED}:merge_breakpoints"], "bounded/C06.py",
   "Proof core: the merge-epoch partition (merge_breakpoints: bisect loop with invariant and variant, for k = 1,2,3 input indexes and every buffer size) ends exactly where every input is exhausted and is strictly increasing. Bounded stand-in for the rest (all small record multisets x partitions x orders x mergebuf x max_merge).",
-  level="other", unverified=["create_from_unordered merge plan", "merge_breakpoints", "CoolerMerger.__iter__"])
+  level="other", unverified=["create_from_unordered (sort pass / two-pass merge plan over temporary files)", "CoolerMerger.__iter__ (pandas concat/groupby per epoch)"])
 
 P("C07", [f"{RED}:merge_breakpoints", f"{UT}:get_binsize", f"{ING}:_validate_pixels"], "bounded/C07.py",
   "Proof core: merge_breakpoints (shared with C06). Bounded stand-in for the rest (all small input families x mergebuf x orders x nestings x dtype limits).",
-  level="other", unverified=["merge_breakpoints", "CoolerMerger.__init__/__iter__", "merge_coolers", "write_pixels"])
+  level="other", unverified=["CoolerMerger.__init__/__iter__ (pandas concat/groupby-sum per epoch)", "merge_coolers (compatibility checks)", "write_pixels"])
 
 P("C08", [f"{RED}:_greedy_prune_partition", f"{RED}:CoolerCoarsener.__init__", f"{UT}:get_binsize"], "bounded/C08.py",
   "Proof core: CoolerCoarsener.__init__ builds, for every chromosome layout, factor and chunk size, a pixel partition whose every edge is the offset of a coarse-row start (bin1_offset[chrom_offset[c] + g*factor]) or nnz (loop invariant with ghost witnesses; Cooler/GenomeSegmentation by assumed models), and _greedy_prune_partition keeps only values of that edge list, ordered, from 0 to nnz - so no coarse row is ever split across spans; get_binsize (which decides the re-binning path) is truthful (C20). Bounded stand-in for the rest (all small coolers x factors x chunk sizes x workers against a block-aggregate model).",
-  level="other", unverified=["CoolerCoarsener.__init__/_aggregate/__iter__", "_greedy_prune_partition", "coarsen_bins"])
+  level="other", unverified=["CoolerCoarsener._aggregate / __iter__ (pandas groupby aggregation per chunk, worker map)", "coarsen_bins / coarsen_cooler (bin table construction, create)"])
 
 P("C09", [f"{RED}:get_multiplier_sequence"], "bounded/C09.py",
   "Proof core: the zoom plan (three loops with invariants and a variant): every non-base resolution is derived from the LARGEST smaller member dividing it with multiplier >= 2, a supplied base is never re-derived, and a non-derivable member is refused exactly. Bounded stand-in for the rest (plan level: all subsets of resolutions x bases; file level against direct coarsening).",
-  level="other", unverified=["get_multiplier_sequence", "zoomify_cooler"])
+  level="other", unverified=["zoomify_cooler (copy of the base, one coarsen_cooler call per planned step, file modes)"])
 
 P("C10", [f"{BAL}:_init", f"{BAL}:_binarize", f"{BAL}:_zero_diags", f"{BAL}:_zero_trans", f"{BAL}:_zero_cis", f"{BAL}:_timesouterproduct"], "bounded/C10.py", "Proof core: the per-pixel filters of the balancing pipeline are verified elementwise for every chunk (which pixels are zeroed: |bin1-bin2| < n_diags strictly, trans / cis by the chromosome of the two bins; binarisation; weighting by vec[bin1]*vec[bin2]) together with their frame (no filter writes the shared chunk; _init returns a fresh copy). Bin-level masks, the iteration and the flatness bound are covered by the bounded tier only.", level="other",
   unverified=["_marginalize (bincount)", "_balance_genomewide/_cisonly/_transonly loops", "balance_cooler masks (min_nnz, min_count, MAD)"])
@@ -106,30 +109,33 @@ P("C12", [f"{API}:matrix", f"{API}:Cooler.matrix", f"{RQ}:CSRReader.__call__"], 
   "Proof: api.matrix (sparse and dense outputs) multiplies every raw value by the weight of its own row bin and its own column bin from the selected column (reciprocals when divisive; rows from [i0,i1), columns from [j0,j1) also when the ranges differ, incl. the aliasing shortcut for equal ranges), refuses a missing column with ValueError, and builds the fill-lower engine iff asked with the window as bounding box (engine outputs by assumed model; their content is C03's exactly-once lemma and the CSRReader.__call__ contract, included). Cooler.matrix is proved to pass every option through, with the divisive default exactly for KR/VC/VC_SQRT when the caller passed None and fill_lower = symmetric-upper. The balanced pixel-table branch (annotate) and dump -b are covered by the bounded tier; NaN propagation through * and / is assumed (IEEE), not modelled.", level="other",
   unverified=["api.matrix as_pixels+balance branch (annotate)", "dump --balanced annotator"])
 
-P("C13", [f"{ING}:_validate_pixels"], "bounded/C13.py", "Proof core: the default validator accepts a chunk iff it has no out-of-range id, no lower-triangle pixel (symmetric mode) and no in-chunk duplicate, raises BadInputError exactly otherwise, and returns the records unchanged (pandas duplicated/sort_values by assumed contract). The no-cooler-after-failure and frame clauses are covered by the bounded tier (fault injection at every chunk index).", level="other",
-  unverified=["create() exceptional postcondition and frame (ghost HDF5 model not built)"])
+P("C13", [f"{ING}:_validate_pixels", f"{CR}:create"], "bounded/C13.py", "Proof core: the default validator accepts a chunk iff it has no out-of-range id, no lower-triangle pixel (symmetric mode) and no in-chunk duplicate, raises BadInputError exactly otherwise, and returns the records unchanged (pandas duplicated/sort_values by assumed contract). create() itself is verified as a coordinator over a ghost operation log (every helper and h5py call replaced by a recording stub; 41 configurations of mode/append/root-or-nested target/check flags/input forms/single-cell append, symbolic paths, counts and symmetric flag): the validator is chained onto the caller's pixel stream iff any check is requested, with the bin count and exactly the requested checks (triangularity only in symmetric mode); a refused call opens no file; every write lies inside the target group of the target file; the info record is written once and last, so a stream that fails has left no info record. What an interrupted write leaves on disk is covered by the bounded tier (fault injection at every chunk index).", level="other",
+  unverified=["write_pixels body (the per-chunk append loop, where a mid-stream failure happens)", "is_cooler on the partial file (bounded)"])
 
 P("C14", [f"{SEL}:_IndexingMixin._process_slice", f"{SEL}:RangeSelector1D.__getitem__", f"{SEL}:RangeSelector1D.fetch", f"{TOP}:get"], "bounded/C14.py",
   "Proof core: slice/scalar normalisation of every table selector for all integer bounds, and the table read (get: rows lo..hi-1 of every requested plain column, labelled lo.., independent of the column selection, Series for a single name); enum decoding, the selectors' glue and annotate "
   "are covered by the bounded tier.", level="other",
-  unverified=["_tableops.get enum/bytes decoding", "RangeSelector1D.__getitem__/fetch", "api.annotate"])
+  unverified=["_tableops.get enum/bytes decoding", "api.annotate (pandas joins)", "the _slice closures of Cooler.chroms()/bins()/pixels()"])
 
-P("C15", [f"{UT}:parse_cooler_uri", "cooler.fileops:_copy"], "bounded/C15.py",
+P("C15", [f"{UT}:parse_cooler_uri", "cooler.fileops:_copy", f"{CR}:create"], "bounded/C15.py",
   "Proof core: URI splitting for all strings, and the branch logic of fileops._copy (behind cp/mv/ln) over a ghost "
   "operation log of two h5py handles, for all flag combinations, group paths and same/different files: the "
   "destination file is opened for truncation iff it is absent or overwrite was asked, the source is never opened "
   "for truncation, every write creates exactly the destination group (or, for a root destination across files, "
   "its four children and attributes), the only thing ever deleted is the source group of a move, a refused "
   "combination writes nothing.  h5py's own semantics (hard link, deep copy, soft/external link) are assumed. "
-  "Sequences of operations on real files are explored by the bounded tier.", level="other",
-  unverified=["cp/mv/ln (one-line wrappers of _copy)", "is_cooler/list_coolers", "create() mode/frame",
+  "create() (coordinator contract over the same kind of log): the first open uses the requested mode - write by default, "
+  "append when asked - and every later open is r+; with a nested target exactly the target group is deleted, iff it "
+  "existed, and created afresh; with a root target exactly the existing ones of the four tables are deleted; every "
+  "write lies inside the target group. Sequences of operations on real files are explored by the bounded tier.", level="other",
+  unverified=["cp/mv/ln (one-line wrappers of _copy)", "is_cooler/list_coolers",
               "h5py link/copy semantics (assumed by the operation-log model)"])
 
 P("C16", [f"{ING}:_sanitize_pixels", f"{ING}:_validate_pixels", f"{RQ}:FillLowerRangeQuery2D.__init__", f"{RQ}:DirectRangeQuery2D.__init__"], "bounded/C16.py", "Proof core: the pieces of the dump/load paths that are under contract - the query engines dump iterates (exactly-once lemma, shared with C03) and the pre-binned-record sanitizer and validator cooler load runs every chunk through (shared with C05/C13). The option semantics of dump, the loaders' column mapping and the zoomify spec expansion are covered by the bounded tier (all 128 dump option subsets, all column permutations).",
   level="other", unverified=["cli.dump (option semantics)", "cli.load / cli.cload.pairs (column mapping)", "parse_field_param", "zoomify spec loop"])
 
-P("C17", [], "bounded/C17.py", "Bounded stand-in only so far.", level="other",
-  unverified=["create_scool", "create(append_scool=True)", "list_scool_cells"])
+P("C17", [f"{CR}:create"], "bounded/C17.py", "Proof core: the per-cell append path of create() (create() itself is verified as a coordinator over a ghost operation log (every helper and h5py call replaced by a recording stub; 41 configurations of mode/append/root-or-nested target/check flags/input forms/single-cell append, symbolic paths, counts and symmetric flag)): a cell's chroms table and its three standard bin columns are hard links to the ROOT tables of the single-cell file named by scool_root_uri (no table is written again), its own extra bin columns - exactly the non-standard columns of the cell's bin table - are stored per cell under <cell>/bins, its pixels, indexes and info are written as for any collection, the root file is never truncated, and append_scool without a root URI is refused. create_scool's loop over cells, cell naming and listing are covered by the bounded tier.", level="other",
+  unverified=["create_scool (root tables, loop over cells, cell names)", "list_scool_cells / is_scool_file", "h5py hard-link semantics (assumed)"])
 
 P("C18", [f"{CR}:_rename_chroms", f"{CR}:rename_chroms"], "bounded/C18.py",
   "Proof core: _rename_chroms over a ghost operation log of the HDF5 group, for all tables, maps and both "
